@@ -2,6 +2,8 @@ import LettreVerif.Props.C09
 #print axioms LV.C09.shutdown_final
 #print axioms LV.C09.shutdown_shuts
 #print axioms LV.C09.shutdown_closes_parked
+#print axioms LV.C09.closed_stays_closed
+#print axioms LV.C09.parked_at_shutdown_closed_for_ever
 #print axioms LV.C09.abort_sends_quit
 #print axioms LV.C09.shutdown_quits_every_live_parked
 #print axioms LV.C09.send_after_shutdown_fails
